@@ -1225,6 +1225,7 @@ func main() {
 		t0      = time.Now()
 	)
 	runChild(hs, *par, fl.Out, results, &crashes)
+	byKey := map[string]int{}
 	var (
 		totalJobs, totalFrag, totalChan, totalRekey, chanReached, updMiss int
 		totalMs                                                           int64
@@ -1254,6 +1255,11 @@ func main() {
 			out.Count(h.Class, fmt.Sprint(h.K), false)
 		}
 		for _, f := range res.Fails {
+			// vh keeps the first 200 failures only: at most 8 records per key, so that a
+			// frequent (known) key can never crowd out a different one; all are counted
+			if byKey[f.Key]++; byKey[f.Key] > 8 {
+				continue
+			}
 			out.Fail(f.What, f.Key, map[string]interface{}{"k": h.K, "class": h.Class, "clients": h.NCl, "profile": h.Profile, "sleep_ms": h.SleepMs,
 				"max_outstanding_jobs": h.MaxJobs, "max_outstanding_slots": h.MaxSlots, "ops": h.Ops, "log_tail": res.Diag})
 		}
@@ -1265,6 +1271,7 @@ func main() {
 		chanReached += res.Stats["channel_reached"]
 		updMiss += res.Stats["update_not_seen"]
 	}
+	out.Extra("oracle_failures_by_key", byKey)
 	out.Extra("histories", len(hs))
 	out.Extra("jobs", totalJobs)
 	out.Extra("fragmented_jobs", totalFrag)
